@@ -220,6 +220,10 @@ void RelayServer::process_protocol(const std::shared_ptr<ClientSession>& session
     bool progress = true;
     while (progress) {
         progress = false;
+        if (session->closing) {
+            // a handler closed the session; whatever is left in its buffer is never processed
+            break;
+        }
         if (session->state == SessionState::AwaitingIdentity) {
             if (session->read_buffer.size() >= kPeerIdBytes) {
                 progress = true;
